@@ -191,6 +191,7 @@ class Translator:
                 nel = sum(_prod(s_["count"]) for s_ in c["r"]["subs"])
                 if c["rc"] == "NC_NOERR" and nel > 0:
                     self.pending.append(c["lab"])
+                    self.kinds = dict(getattr(self, "kinds", {}), **{c["lab"]: k})
                 if k != "iget":
                     a["vals"] = c["tok"]
             elif k in ("wait", "cancel"):
@@ -203,6 +204,14 @@ class Translator:
                     reqs.insert(rng.randrange(len(reqs) + 1), "NULL")
                 if set(named) == set(self.pending) and rng.random() < 0.4:
                     reqs = "ALL"
+                # all pending reads / all pending writes (possibly none): the by-kind forms NC_GET_REQ_ALL / NC_PUT_REQ_ALL
+                kinds = getattr(self, "kinds", {})
+                gets = {x for x in self.pending if kinds.get(x) == "iget"}
+                puts = set(self.pending) - gets
+                if set(named) == gets and (not named or rng.random() < 0.5):
+                    reqs = "GET_ALL"
+                elif set(named) == puts and (not named or rng.random() < 0.5):
+                    reqs = "PUT_ALL"
                 self.pending = [x for x in self.pending if x not in named]
                 a = {"op": k, "special": reqs} if isinstance(reqs, str) else {"op": k, "reqs": reqs}
                 if k == "wait":
